@@ -36,7 +36,7 @@ def cases(draw, name, max_len):
             # "aeager": __anext__ consumes when CALLED - calling it ahead of the await is a read-ahead
             # "areiter": an async ITERABLE whose __aiter__ calls are logged ("open"): chain opens its k-th argument
             # only when it gets there
-            s["fl"] = draw(st.sampled_from(["aclass", "aclass", "aeager", "areiter"]))
+            s["fl"] = draw(st.sampled_from(["aclass", "aclass", "aeager", "areiter", "aeagerstop"]))
     if name == "chain_from_iterable":
         case["params"]["outer"]["fl"] = "aclass"
     for spec in case["fns"].values():
